@@ -54,7 +54,7 @@ var pureLib = map[string]string{
 	"strconv.FormatInt": "", "strconv.Quote": "", "bytes.Equal": "", "strings.Join": "", "strings.HasPrefix": "", "strings.HasSuffix": "",
 	"strings.Contains": "", "strings.ToLower": "", "strings.ToUpper": "", "strings.Split": "", "strings.TrimSpace": "", "strings.Repeat": "",
 	"(reflect.Value).Pointer": "", "(reflect.Value).Kind": "", "(reflect.Value).IsNil": "", "(reflect.Value).Len": "", "(reflect.Value).Interface": "",
-	"(reflect.Value).IsValid": "", "(reflect.Value).MapIndex": "", "(reflect.Value).Int": "", "(reflect.Value).Uint": "", "(reflect.Value).Float": "", "(reflect.Value).String": "", "(reflect.Value).Elem": "", "(reflect.Value).Type": "", "(reflect.Value).FieldByName": "", "(reflect.Value).Index": "",
+	"(reflect.Value).IsValid": "", "(reflect.Value).MapIndex": "", "(reflect.Value).Int": "", "(reflect.Value).Uint": "", "(reflect.Value).Float": "", "(reflect.Value).String": "", "(reflect.Value).Elem": "", "(reflect.Value).Type": "", "(reflect.Value).FieldByName": "", "(reflect.Value).FieldByIndex": "", "(reflect.Value).Index": "",
 	"(*reflect.rtype).Comparable": "", "(*reflect.rtype).Kind": "", "(*reflect.rtype).String": "", "(*reflect.rtype).Name": "", "(*reflect.rtype).Elem": "",
 	"(*sync.Mutex).Lock": "", "(*sync.Mutex).Unlock": "", "(*sync.RWMutex).Lock": "", "(*sync.RWMutex).Unlock": "", "(*sync.RWMutex).RLock": "", "(*sync.RWMutex).RUnlock": "",
 	"(*sync.WaitGroup).Add": "", "(*sync.WaitGroup).Done": "", "(*sync.WaitGroup).Wait": "",
